@@ -345,16 +345,18 @@ theorem prim_block_same {op imms ob k k0 p st σ ic bcs w1} (hKI : K.ign = X.ign
 
 /-- the address operand (the deepest of the operands `st`) of a run-time addressed slot opcode is a
     slot number the machine accepts and that the invariant does not look at -/
-def AddrOK (X : MCtx) (st : List Val) : Prop := ∀ s, st.getLast? = some (.u s) → s < 256 ∧ s ∉ X.prot
+def AddrOK (X : MCtx) (st : List Val) : Prop :=
+  ∀ s, st.getLast? = some (.u s) → s < 256 ∧ s ∉ X.prot ∧ s ∉ X.ign
 
 /-- either the range failures of `loads` / `stores` are permitted deviations, or the address is
     known to be in range (by-reference discipline) -/
-def DynOK (X : MCtx) (st : List Val) : Prop := (X.dev rangeL ∧ X.dev rangeS ∧ X.prot = []) ∨ AddrOK X st
+def DynOK (X : MCtx) (st : List Val) : Prop :=
+  (X.dev rangeL ∧ X.dev rangeS ∧ X.prot = [] ∧ X.ign = []) ∨ AddrOK X st
 
 /-- `vloads` / `vstores`: the source semantics accepts every slot number, the generated `loads` /
     `stores` checks the range: a permitted deviation (`X.dev rangeL / rangeS`), or excluded by the
     by-reference discipline -/
-theorem prim_block_dyn {op imms ob k k0 p st σ ic bcs w1} (hI : X.ign = []) (hX : X.InvOK)
+theorem prim_block_dyn {op imms ob k k0 p st σ ic bcs w1} (hX : X.InvOK)
     (hdev : DynOK X st)
     (hsig' : Models.Fragment.primSig op = some (k0, p)) (hop : op = "vloads" ∨ op = "vstores")
     (hb : Blk X.G ob [.prim (renOp op) imms] (.next k)) (hlen : st.length = k0) :
@@ -380,12 +382,16 @@ theorem prim_block_dyn {op imms ob k k0 p st σ ic bcs w1} (hI : X.ign = []) (hX
     | [.u s], _ =>
       rw [exec_vloads_u]
       refine ⟨rfl, ReachO.of_block_dev hb' (by simp [isSimple]) (fun wm hw hinv hbound => ?_)⟩
+      have hni : s ∉ X.ign := by
+        rcases hdev with h | h
+        · rw [h.2.2.2]; simp
+        · exact (h s rfl).2.2
       by_cases hs : s < 256
       · refine .inr ⟨wm, hw, hinv, ?_⟩
         have hbound' : (getSlot wm.scratch s :: (σ ++ X.base)).length ≤ maxStack := by
           simpa using hbound
         simp only [execOps, execSimple, MCtx.onBase, List.cons_append, List.nil_append, exec_loads_u, hs, if_true,
-          hbound', hw.1 s (by rw [hI]; simp)]
+          hbound', hw.1 s hni]
       · rcases hdev with hdev | ha
         · refine .inl ⟨rangeL, hdev.1, ?_⟩
           simp only [execOps, execSimple, MCtx.onBase, List.cons_append, List.nil_append, exec_loads_u, hs, if_false,
@@ -411,8 +417,8 @@ theorem prim_block_dyn {op imms ob k k0 p st σ ic bcs w1} (hI : X.ign = []) (hX
       by_cases hs : s < 256
       · have hinv2 : X.inv { w1 with scratch := setSlot w1.scratch s b } := by
           rcases hdev with hdev | ha
-          · exact hX _ _ (fun s hs => by rw [hdev.2.2] at hs; cases hs) hinv
-          · exact hX.set (ha s rfl).2 hinv
+          · exact hX _ _ (fun s hs => by rw [hdev.2.2.1] at hs; cases hs) hinv
+          · exact hX.set (ha s rfl).2.1 hinv
         refine .inr ⟨_, hw.set s b, hinv2, ?_⟩
         have hbound' : (σ ++ X.base).length ≤ maxStack := by
           have : (b :: Val.u s :: (σ ++ X.base)).length ≤ maxStack := by simpa using hbound
@@ -444,7 +450,7 @@ theorem prim_block {op imms ob k k0 p st σ ic bcs w1} (hKI : K.ign = X.ign) (hX
   | slot hI hstr hop =>
     rw [renOp_same (.inr hop)] at hb
     exact prim_block_same hKI hX hprot hsig' (.inr ⟨hI, hstr, hop⟩) hb hlen
-  | dyn hI hd hop => exact prim_block_dyn (hKI ▸ hI) hX (hdyn hop) hsig' hop hb hlen
+  | dyn _ hd hop => exact prim_block_dyn hX (hdyn hop) hsig' hop hb hlen
 
 theorem case_prim {op imms args s ob k L bc n σ ic bcs w r w' k0 p} (ih : AllX X cfg K env fuel) (hKI : K.ign = X.ign) (hX : X.InvOK)
     (hprot : K.strict = false → X.prot = X.ign)
@@ -1389,8 +1395,9 @@ structure RFacts (cx : Ctx) (X : MCtx) (cfg : RCfg) (K : RK) : Prop where
   /-- with run-time addressed slots the range failures of `loads` / `stores` are permitted, or the
       by-reference discipline holds: the by-reference parameter cells of the routine hold slot
       numbers in range that the invariant does not look at -/
-  dyn : K.dyn = true → K.ign = [] → (X.dev rangeL ∧ X.dev rangeS ∧ X.prot = []) ∨
-    (K.strict = true ∧ ∀ w, X.inv w → ∀ v, v ∈ K.ref → ∃ s, getSlot w.scratch v = .u s ∧ s < 256 ∧ s ∉ X.prot)
+  dyn : K.dyn = true → (K.ign = [] ∨ K.strict = true) → (X.dev rangeL ∧ X.dev rangeS ∧ X.prot = [] ∧ X.ign = []) ∨
+    (K.strict = true ∧ ∀ w, X.inv w → ∀ v, v ∈ K.ref →
+      ∃ s, getSlot w.scratch v = .u s ∧ s < 256 ∧ s ∉ X.prot ∧ s ∉ X.ign)
   prot : K.strict = false → X.prot = X.ign
   /-- the trees never store into a slot the invariant looks at -/
   protS : ∀ v, v ∉ K.ign → K.refAll.contains v = false → v ∉ X.prot
@@ -1429,7 +1436,7 @@ theorem step_ev {e s k L bc rc n σ ic bcs w r w'} (hF : RFacts env.cx X cfg K)
       simp only [Bool.and_eq_true, beq_iff_eq] at hw
       refine case_prim ih hKI hX hF.prot ?_ hb ha hsig hw.1.1 hw.1.2 hw.2 h
       intro hop hi st w1 hev
-      have hd : K.dyn = true ∧ K.ign = [] := by
+      have hd : K.dyn = true ∧ (K.ign = [] ∨ K.strict = true) := by
         cases (primSigK_cases hsig).2 with
         | framed hf => rcases hop with rfl | rfl <;> exact absurd hf (by decide)
         | slot _ _ hop' => rcases hop with rfl | rfl <;> rcases hop' with hh | hh <;> exact absurd hh (by decide)
